@@ -112,6 +112,7 @@ class Summarizer:
         self.attrs_written = set()
         self.locals_all = set()
         self.in_try = 0
+        self.try_normal = False
         self.dyn_ir = set()      # IR locals holding a method chosen dynamically by getattr
         self.helper_seen = set()
         self.known_attrs = {"n_features_in_"}
@@ -363,7 +364,9 @@ class Summarizer:
         elif isinstance(st, ast.Raise):
             if st.exc is not None:
                 self.expr(fr, st.exc)
-            if self.in_try == 0:
+            if self.in_try == 0 or self.try_normal:
+                # outside try: the method leaves by the exception.  Inside the normal-completion copy of a
+                # try body: this path does not complete the body (it is covered by the handler alternative)
                 self.emit(("abort", self.meta(fr, st)))
             raise Term()
         elif isinstance(st, (ast.Break, ast.Continue)):
@@ -405,20 +408,26 @@ class Summarizer:
         elif isinstance(st, ast.Try):
             outer = self.cur
             self.cur = body = []
+            saved_tn = self.try_normal
             if st.handlers:
                 self.in_try += 1
+                self.try_normal = True
             b_term = self.block(fr, st.body)
             if st.handlers:
                 self.in_try -= 1
+            self.try_normal = saved_tn
             if not b_term and st.orelse:
                 b_term = self.block(fr, st.orelse)
             self.cur = partial = []
             if st.handlers:
                 self.in_try += 1
+                self.try_normal = False
                 self.block(fr, st.body)  # an exception may leave the body half-way: "body or nothing"
                 self.in_try -= 1
+                self.try_normal = saved_tn
             handlers = [("ite", partial, [])]
             h_term_all = bool(st.handlers)
+            hblocks = []
             for h in st.handlers:
                 self.cur = hb = []
                 if h.name:
@@ -426,7 +435,12 @@ class Summarizer:
                     self.locals_all.add(n)
                 ht = self.block(fr, h.body)
                 h_term_all = h_term_all and ht
-                handlers.append(("ite", hb, []))
+                hblocks.append(hb)
+            # exactly one handler runs on the exceptional path (the last one stands for "the others did not match")
+            chain = hblocks[-1] if hblocks else []
+            for hb in reversed(hblocks[:-1]):
+                chain = [("ite", hb, chain)]
+            handlers.extend(chain)
             self.cur = outer
             if st.handlers:
                 outer.append(("ite", body, handlers))
